@@ -75,6 +75,11 @@ def gen(d, header, flags, target, edition, tag):
 def run(chk):
     d = chk.dir("grid")
     headers = [("abi", write(os.path.join(d, "abi.h"), H_ABI), FLAGS_ABI), ("plain", write(os.path.join(d, "plain.h"), H_PLAIN), FLAGS_PLAIN)]
+    # the same declarations met in another order: what is emitted for a target must not depend on which C type is converted first
+    void_first = "int buf_len(const void *buf);\nvoid *vp_first;\n"
+    headers.append(("plain-voidfirst", write(os.path.join(d, "plain_vf.h"), void_first + H_PLAIN), FLAGS_PLAIN))
+    headers.append(("abi-voidfirst", write(os.path.join(d, "abi_vf.h"), void_first + H_ABI), FLAGS_ABI))
+    headers.append(("plain-reversed", write(os.path.join(d, "plain_rev.h"), "\n".join(reversed(H_PLAIN.strip().split("\n"))) + "\n"), FLAGS_PLAIN))
     targets = [("1.%d" % m, m) for m in MINORS]
     for m in (51, 64, 77, 82, 85):
         targets += [("1.%d.3" % m, m), ("1.%d.0-beta" % m, m), ("1.%d.1-beta.2" % m, m), ("1.%d.0-nightly" % (m + 1), m)]
